@@ -55,6 +55,43 @@ fn walk_mix<M: NodeMon>(ctx: &Ctx, rep: &mut Report, mon: &mut M, quick: u64, th
             ("4Q3/8/8/8/8/7k/8/R3K3 w Q - 0 1", "e8e2"),
             ("r3k3/8/7K/8/8/8/8/4q3 b q - 0 1", "e1e7"),
         ];
+        // ... and per *file*: a double push beside an enemy pawn on every file for either colour, with all four
+        // castling rights (the longest FEN tail, every e.p. key, both edge files), and boards on which more sliders
+        // are lined up with a king than it has rays
+        let mut tour: Vec<(String, String)> = tour.iter().map(|(a, b)| (a.to_string(), b.to_string())).collect();
+        for f in 0..8usize {
+            let nb = if f == 0 { 1 } else if f == 7 { 6 } else if f % 2 == 0 { f + 1 } else { f - 1 };
+            let row = |a: usize, ca: char, b: usize, cb: char| -> String {
+                // a rank holding one or two pawns
+                let mut cells = vec!['1'; 8];
+                cells[a] = ca;
+                if b < 8 {
+                    cells[b] = cb;
+                }
+                let mut out = String::new();
+                let mut run = 0;
+                for c in cells {
+                    if c == '1' {
+                        run += 1;
+                    } else {
+                        if run > 0 {
+                            out.push_str(&run.to_string());
+                            run = 0;
+                        }
+                        out.push(c);
+                    }
+                }
+                if run > 0 {
+                    out.push_str(&run.to_string());
+                }
+                out
+            };
+            let file = (b'a' + f as u8) as char;
+            tour.push((format!("r3k2r/8/8/8/{}/8/{}/R3K2R w KQkq - 0 1", row(nb, 'p', 8, ' '), row(f, 'P', 8, ' ')), format!("{}2{}4", file, file)));
+            tour.push((format!("r3k2r/{}/8/{}/8/8/8/R3K2R b KQkq - 0 1", row(f, 'p', 8, ' '), row(nb, 'P', 8, ' ')), format!("{}7{}5", file, file)));
+        }
+        tour.push(("1QQ2rk1/P4ppp/8/8/2Q5/1Q4Q1/B5R1/6RK w - - 0 1".to_string(), "a7a8q".to_string()));
+        tour.push(("6rk/b5r1/1q4q1/2q5/8/8/p4PPP/1qq2RK1 b - - 0 1".to_string(), "a2a1q".to_string()));
         ctx.cases(rep, "kinds-tour", 1, |gid, rng, rep| {
             for (i, (fen, mv)) in tour.iter().enumerate() {
                 if i as u64 % ctx.nshards as u64 != gid % ctx.nshards as u64 {
@@ -70,7 +107,7 @@ fn walk_mix<M: NodeMon>(ctx: &Ctx, rep: &mut Report, mon: &mut M, quick: u64, th
                     _ => 0,
                 };
                 let m = RMove::new((b[0] - b'a') + 8 * (b[1] - b'1'), (b[2] - b'a') + 8 * (b[3] - b'1'), promo);
-                assert!(pos.valid() && pos.is_legal(m), "harness: kinds-tour entry {} {} is not valid / legal", fen, mv);
+                assert!(pos.valid() && pos.is_legal(m), "HARNESS: kinds-tour entry {} {} is not valid / legal", fen, mv);
                 let st = Start { pos, prelude: vec![m], tag: "kinds_tour" };
                 let cfg = WalkCfg { max_plies: 1, null_per_mille: 0, stop_on_divergence: true, follow_library: fl, echo_per_mille: 50 };
                 let nodes = playout(&st, &cfg, rng, mon, rep);
